@@ -21,7 +21,8 @@ Transcribed (same branches, same order of side effects):
   the bounds checks of `strSubstring`; every other stateless builtin is an external call `ctx.call`
   (the harness supplies the library's answers), as is regex matching;
 * the entry paths `Expression.Eval` (`evalTop`: `Type`, `EvalX` by type, `recover`), `EvalPredicate`'s
-  `Type`-then-`EvalBool` (`evalPred`), direct `EvalX` (`evalDirect`), `CopyReset` (fresh `FnState`, SAME cache).
+  `Type`-then-`EvalBool` (`evalPred`), direct `EvalX` (`evalDirect`), `CopyReset` (fresh `FnState`, SAME cache), and `kapacitor.EvalPredicate` of the root
+  package (`evalPoint`: `fillScope` over `FindReferenceVariables`, then `evalPred`).
 Abstracted: error values are one class (no decision of the repaired evaluator depends on the error);
 `EvalLambdaNode`, dynamic functions registered on a scope, `rand`, `now`, calls with exactly four arguments
 (`strReplace`) are not modelled; the cache is a tree parallel to the expression.
@@ -555,6 +556,49 @@ def runPathN (p : Path) (e : Expr F) (st : FnState F) : Outcome (Value F) × FnS
   | .type => ((match typeP ctx σ e with | some _ => .ok .missing | none => .err), st)
 
 end
+
+/-! ### `EvalPredicate` of the root package: the scope is filled from a point -/
+
+/-- what `EvalPredicate` reads of a point: its time, its fields (int, float, string, bool values) and tags. -/
+structure Point (F : Type) where
+  time : Int
+  fields : List (String × Value F)
+  tags : List (String × String)
+
+/-- `ast.FindReferenceVariables` (as a list; `fillScope` does not depend on order or repetitions). -/
+def refsOf {F : Type} : Expr F → List String
+  | .ref n => [n]
+  | .un _ e => refsOf e
+  | .bin _ l r => refsOf l ++ refsOf r
+  | .call1 _ a => refsOf a
+  | .call2 _ a b => refsOf a ++ refsOf b
+  | .call3 _ a b c => refsOf a ++ refsOf b ++ refsOf c
+  | _ => []
+
+def assoc {α : Type} (l : List (String × α)) (n : String) : Option α :=
+  match l.find? (fun p => p.1 == n) with
+  | some p => some p.2
+  | none => none
+
+/-- `fillScope`: for every reference variable — `time` is the point's time; a field of that name, else a tag
+of that name; both ⇒ the whole call is an error (`none`); neither ⇒ the missing value. -/
+def fillScope {F : Type} : List String → Point F → Option (Scope F)
+  | [], _ => some []
+  | n :: rest, p =>
+    if n = "time" then (fillScope rest p).map (fun σ => ("time", .time p.time) :: σ)
+    else
+      match assoc p.fields n, assoc p.tags n with
+      | some _, some _ => none
+      | some v, none => (fillScope rest p).map (fun σ => (n, v) :: σ)
+      | none, some s => (fillScope rest p).map (fun σ => (n, .str s) :: σ)
+      | none, none => (fillScope rest p).map (fun σ => (n, .missing) :: σ)
+
+/-- `kapacitor.EvalPredicate(se, scopePool, point)`. -/
+def evalPoint {F : Type} (ctx : Ctx F) (e : Expr F) (p : Point F) (c : Cache) (st : FnState F) :
+    Outcome (Value F) × Cache × FnState F :=
+  match fillScope (refsOf e) p with
+  | none => (.err, c, st)
+  | some σ => evalPred ctx σ e c st
 
 /-- The cache of a compiled expression after ANY earlier evaluations: each one through any entry path, against
 any scope, with the function state of any group (`CopyReset` copies share the cache). -/
